@@ -60,8 +60,43 @@ def hull2(points):
     return lo[:-1] + up[:-1]
 
 
+_HALF_DIRS = [(1, 0), (2, 1), (1, 1), (1, 2), (0, 1), (-1, 2), (-1, 1), (-2, 1)]  # primitive, by increasing angle in [0, pi)
+
+
+@st.composite
+def zonogon2(draw, n):
+    """irregular convex lattice polygon with n in 6..8 vertices: k edge directions with multiplicities, each followed
+    half a turn later by its negative (a zonogon, 2k vertices); for odd n one corner is cut off. Elongated and
+    lopsided shapes included - the vertices are not equidistant from the centre."""
+    k = (n + 1) // 2
+    idx = sorted(draw(st.lists(st.integers(0, len(_HALF_DIRS) - 1), min_size=k, max_size=k, unique=True)))
+    mult = [draw(st.sampled_from((1, 1, 2, 3))) for _ in range(k)]
+    es = [(_HALF_DIRS[i][0] * m, _HALF_DIRS[i][1] * m) for i, m in zip(idx, mult)]
+    es = es + [(-a, -b) for a, b in es]
+    if n % 2 == 1:
+        j = draw(st.integers(0, len(es) - 1))
+        a, b = es[j], es[(j + 1) % len(es)]
+        merged = (a[0] + b[0], a[1] + b[1])
+        es = [e for t, e in enumerate(es) if t not in (j, (j + 1) % len(es))]
+        es.insert(j if j < len(es) + 1 else 0, merged)
+        import math as _m
+
+        es.sort(key=lambda e: _m.atan2(e[1], e[0]) % (2 * _m.pi))
+    pts = [(0, 0)]
+    for e in es[:-1]:
+        pts.append((pts[-1][0] + e[0], pts[-1][1] + e[1]))
+    cx = sum(p[0] for p in pts) // len(pts)
+    cy = sum(p[1] for p in pts) // len(pts)
+    pts = [(a - cx, b - cy) for a, b in pts]
+    h = hull2(pts)
+    assume(len(h) == n and max(abs(c) for p in h for c in p) <= 6)
+    return h
+
+
 @st.composite
 def shape2(draw, nmin=3, nmax=8):
+    if nmax >= 6 and draw(st.integers(0, 5)) == 0:
+        return draw(zonogon2(draw(st.integers(max(6, nmin), nmax))))
     mode = draw(st.integers(0, 2))
     if mode == 0:
         k = draw(st.integers(3, 7))
